@@ -208,6 +208,17 @@ def build(tier):
     c['members'] = MEMBERS + [(r'^logical_error\|', '@throw')]
     targets.append(T('value_str', [Fn('value_str', DRV, 'value', flt='nano::parameter_t::value', select=targs('std::basic_string<char>', '-1'),
                                       self_struct='struct nv_parameter', **c)]))
+    # parameter_t::operator=(tenum) (header template, instantiated for nano::solver_status by the driver): operator=(string)
+    # replaced by the contract proved above
+    c = dict(COMMON)
+    c['types'] = TYPES + [(r'^nano::solver_status$', 'int32_t')]
+    c['members'] = MEMBERS + [(r'^logical_error\|', '@throw'), (r'^operator=\|nano::parameter_t', 'parameter_assign_str!')]
+    c['calls'] = CALLS + [(r'^scat\|nano::string_t \(const nano::solver_status &\)', 'nv_scat_enum((int64_t){0})')]
+    fe = Fn('parameter_assign_enum', DRV, 'operator=', flt='nano::parameter_t::operator=', select=targs('nano::solver_status', '-1'),
+            self_struct='struct nv_parameter', **c)
+    targets.append(T('parameter_assign_enum', [fe, method('parameter_assign_str', 'operator=', ['nano::string_t']), upd_enum()] +
+                     [upd(cn, table[cn]) for cn in ('update_ir_ll', 'update_fr_f64', 'update_ip_ll', 'update_fp_f64')] + helpers(),
+                     replace=['parameter_assign_str'], solver=None))
     # T6: configurable_t lookups and registration (std::find_if / emplace_back by assumed contract, the predicate lambda,
     # parameter_t::name() and ::find_param inlined everywhere)
     for top, deps in [('find_param', []), ('find_param_c', []), ('parameter', ['find_param']), ('parameter_c', ['find_param_c']),
@@ -229,6 +240,8 @@ def build(tier):
             'the alternative never changes',
             'parameter_t::operator=(string): enum -> domain check, string -> stored, integer / real (pair) -> as the numeric assignment of the parsed '
             'number(s); unparsable => throws, nothing changes; empty parameter throws',
+            'parameter_t::operator=(tenum) (instantiated for nano::solver_status): an enumeration parameter takes scat(value) through '
+            'operator=(string) (by its contract), every other kind throws and nothing changes',
             'the six parameter_t constructors: a constructed parameter holds exactly the given record / string, of the given kind, and the record '
             'satisfies its domain predicate (out-of-domain default <=> the constructor throws)',
             'parameter_t::value<int64|double>(), value_pair<int64|double>(), value<string>(): return the stored value converted to the requested kind; '
@@ -240,7 +253,8 @@ def build(tier):
         'not_decided': [
             'the double -> int64 conversion in ::update(range_t<int64>, double) / ::update(pair_range_t<int64>, double, double) for x == -2^63 exactly '
             '(defined in C++, rejected by cbmc\'s conversion check)',
-            'parameter_t::operator=(tenum), value<tenum>(), make_enum_ (enum <-> string tables: enum_string / from_string)',
+            'value<tenum>(), make_enum_ (enum <-> string tables: enum_string / from_string); operator=(tenum) for enums other than the '
+            'instantiated nano::solver_status (same template)',
             'make_scalar_ / make_integer_ ... (header factories: casts of min / value / max, then the constructors proved here)',
             'which strings std::stoll / std::stod accept and what ::split_pair returns (uninterpreted; DESIGN C19 X)',
             'parameter_t::read / write (serialisation; read() stores the record from the stream WITHOUT the domain check -- see final report), '
@@ -258,6 +272,7 @@ def build(tier):
             'std::vector::emplace_back appends one element equal to its argument and keeps the others (reallocation not modelled)',
             'std::string / std::string_view are values of an uninterpreted sort with equality (ids); std::move of a string or record is a copy of the value',
             'std::stoll / std::stod / ::split_pair are deterministic functions of the string; a string that does not parse throws',
+            'scat(enumerator) is a deterministic function of the enumerator (uninterpreted)',
             'value<int64>() / value_pair<int64>() on a REAL parameter: the stored double is representable as int64 (the reader\'s own cast; a real '
             'parameter\'s domain may exceed it -- required as a precondition of those two readers only)',
             'parameter lists have at most 10^6 entries and enum domains at most 10^6 strings (only to keep n * sizeof inside size_t)',
